@@ -171,7 +171,7 @@ pub fn def(ctx: &Ctx) -> PropDef {
         let bl = ty.info().seed_len;
         subs.push(PSub::boxed(
             format!("ctor/{}", ty.name()),
-            t.pick(3000, 200_000),
+            t.pick(8000, 800_000),
             move || {
                 prop_oneof![
                     4 => gens::seed_for(ty, true).prop_map(Input::Seed),
@@ -187,7 +187,7 @@ pub fn def(ctx: &Ctx) -> PropDef {
         ));
         subs.push(PSub::boxed(
             format!("injective/{}", ty.name()),
-            t.pick(1500, 100_000),
+            t.pick(4000, 400_000),
             move || (gens::seed_for(ty, false), proptest::collection::vec(0usize..bl * 8, 1..=3)).prop_map(move |(a, flips)| PairCase { ty, a, flips }).boxed(),
             check_pair,
         ));
